@@ -132,7 +132,23 @@ class Interp:
             else:
                 self.block(s.orelse)
         elif isinstance(s, ast.While):
-            raise NotComparisonOnly('while loop in fragment')
+            # only loops whose condition is concrete (structural integers) are interpreted; capped
+            for _ in range(10000):
+                c = self.expr(s.test)
+                if c is OPQ or isinstance(c, Sym):
+                    raise NotComparisonOnly('while loop on a non-concrete condition')
+                if not c:
+                    break
+                try:
+                    self.block(s.body)
+                except Ctl as ctl:
+                    if ctl.kind == 'break':
+                        break
+                    if ctl.kind == 'continue':
+                        continue
+                    raise
+            else:
+                raise NotComparisonOnly('while loop did not terminate within the cap')
         elif isinstance(s, ast.Break):
             raise Ctl('break')
         elif isinstance(s, ast.Continue):
@@ -273,7 +289,9 @@ class Interp:
             if all(isinstance(x, int) and not isinstance(x, bool) for x in (a, b)):
                 try:
                     return {ast.Add: lambda: a + b, ast.Sub: lambda: a - b, ast.Mult: lambda: a * b,
-                            ast.FloorDiv: lambda: a // b, ast.Mod: lambda: a % b}[type(e.op)]()
+                            ast.FloorDiv: lambda: a // b, ast.Mod: lambda: a % b,
+                            ast.Pow: lambda: a ** b if 0 <= b < 64 else OPQ,
+                            ast.LShift: lambda: a << b if 0 <= b < 64 else OPQ, ast.RShift: lambda: a >> b if 0 <= b < 64 else OPQ}[type(e.op)]()
                 except (KeyError, ZeroDivisionError):
                     return OPQ
             return OPQ
